@@ -18,7 +18,10 @@ index, operator and probe value (no size bound):
   are the specified bag (`C02_model_refines_spec`);
 * filtering chunk by chunk is filtering (`C02_parallel_filter_eq_sequential`), in any
   completion order up to permutation (`C02_parallel_filter_perm`);
-* compaction does not change the abstract adjacency (`C02_abs_compact`).
+* compaction does not change the abstract adjacency (`C02_abs_compact`), and any history of
+  relationship creates/deletes (ids reused freely) with compactions at any points leaves the
+  relationships of the uncompacted store (`C02_tier_refines_flat`,
+  `C02_compaction_placement_irrelevant`).
 The graph-native planner has no model; planner mode, process and the engine as a whole are
 tied to this model only differentially (harness `c02`).
 `C02_counterexample_*` refute the same statements for the model of the pinned tree.
@@ -101,25 +104,51 @@ theorem C02_parallel_filter_perm {α : Type} (p : α → Bool) (chunks chunks' :
   rw [← C02_parallel_filter_eq_sequential]
   exact h.flatMap_right _
 
-/-- Tier invariance: compaction moves the write buffer into a frozen segment and leaves the
-abstract adjacency unchanged (given that no buffered relationship is marked dead). -/
-theorem C02_abs_compact (a : Adj) (h : ∀ e ∈ a.buffer, a.dead.contains e.id = false) :
-    a.compact.abs = a.abs := by
+/-- Compaction moves the write buffer into a frozen segment and leaves the abstract
+adjacency unchanged. -/
+theorem C02_abs_compact (a : Adj) : a.compact.abs = a.abs := by
   unfold Adj.compact
   split
   · rfl
-  · simp only [Adj.abs, List.flatten_append, List.flatten_cons, List.flatten_nil, List.append_nil,
-      List.filter_append]
-    congr 1
-    rw [List.filter_eq_self]
-    intro e he
-    have := h e he
-    simpa using this
+  · simp [Adj.abs, List.flatten_append]
 
 /-- … hence every neighbourhood read is the same before and after compaction. -/
-theorem C02_neighbors_compact (a : Adj) (h : ∀ e ∈ a.buffer, a.dead.contains e.id = false)
-    (src ty : Nat) : a.compact.neighbors src ty = a.neighbors src ty := by
-  simp only [Adj.neighbors, C02_abs_compact a h]
+theorem C02_neighbors_compact (a : Adj) (src ty : Nat) :
+    a.compact.neighbors src ty = a.neighbors src ty := by
+  simp only [Adj.neighbors, C02_abs_compact a]
+
+/-- One write on the two-tier adjacency is the same write on the flat list of relationships. -/
+theorem C02_tier_step (a : Adj) (op : AOp) : (a.step op).abs = flatStep a.abs op := by
+  cases op with
+  | create e => simp [Adj.step, Adj.abs, flatStep]
+  | delete id =>
+    simp only [Adj.step, Adj.abs, flatStep, List.filter_append, List.filter_flatten]
+  | compact => exact C02_abs_compact a
+
+/-- Tier invariance for whole histories: creates, deletes (of frozen and of buffered
+relationships, in any order, with any reuse of ids) and compactions at any points leave
+exactly the relationships that the same writes leave without any compaction. -/
+theorem C02_tier_refines_flat (ops : List AOp) (a : Adj) :
+    (ops.foldl Adj.step a).abs = ops.foldl flatStep a.abs := by
+  induction ops generalizing a with
+  | nil => rfl
+  | cons op rest ih => simp only [List.foldl_cons, ih, C02_tier_step]
+
+/-- Where the compactions happen does not matter: two histories that differ only in their
+`compact` steps end with the same abstract adjacency. -/
+theorem C02_compaction_placement_irrelevant (ops ops' : List AOp)
+    (h : ops.filter (fun o => match o with | .compact => false | _ => true)
+       = ops'.filter (fun o => match o with | .compact => false | _ => true)) :
+    (ops.foldl Adj.step {}).abs = (ops'.foldl Adj.step {}).abs := by
+  have key : ∀ (l : List AOp) (es : List Edge),
+      l.foldl flatStep es = (l.filter (fun o => match o with | .compact => false | _ => true)).foldl flatStep es := by
+    intro l
+    induction l with
+    | nil => intro es; rfl
+    | cons o rest ih =>
+      intro es
+      cases o <;> simp [List.filter, flatStep, ih]
+  rw [C02_tier_refines_flat, C02_tier_refines_flat, key ops, key ops', h]
 
 /-! ### the pinned tree -/
 
@@ -179,9 +208,11 @@ index with three keys). -/
 example : Inv (run witnessOps) ∧ ((run witnessOps).ixs.map (fun ix => ix.tree.length)) = [3] :=
   ⟨inv_run _, by decide⟩
 
-/-- The hypothesis of `C02_abs_compact` is satisfiable with a non-empty buffer and a dead frozen edge. -/
-example : let a : Adj := { segs := [[⟨1, 1, 2, 0⟩, ⟨2, 1, 3, 0⟩]], buffer := [⟨3, 2, 3, 0⟩], dead := [2] }
-    (∀ e ∈ a.buffer, a.dead.contains e.id = false) ∧ a.abs.length = 2 ∧ a.compact.segs.length = 2 := by
+/-- Parallel relationships, a compaction, deletion of one sibling and a create reusing its id:
+the two-tier store ends with the relationships of the uncompacted one. -/
+example :
+    let ops : List AOp := [.create ⟨1, 1, 2, 1⟩, .create ⟨2, 1, 2, 2⟩, .compact, .delete 2, .create ⟨2, 3, 4, 1⟩]
+    (ops.foldl Adj.step {}).abs = [⟨1, 1, 2, 1⟩, ⟨2, 3, 4, 1⟩] ∧ (ops.foldl Adj.step {}).segs.length = 1 := by
   decide
 
 end SgModel.IdxScan
